@@ -76,7 +76,7 @@ Section Main.
       Edits (new_diff L R es) = es /\ Left (new_diff L R es) = L /\ Right (new_diff L R es) = R.
   Proof.
     intros L R es Hs cn.
-    destruct (pipeline_segs L R es 0 Hs) as (segs & gt & HL & HR & Hwf & Hch & Hn & _ & _).
+    destruct (new_chunks_segs T L R es Hs) as (segs & gt & Hn & HL & HR & Hwf & Hch).
     subst cn. rewrite Hn. rewrite <- (ctx_chunks_0 0 segs 1 1 gt) by lia.
     pose proof (wf_gap_free_0 T 0 segs (Z.le_refl 0) Hwf) as Hgf.
     split; [apply (ctx_chunks_ok T L R 0 gt segs [] []); try reflexivity; assumption|].
